@@ -133,6 +133,10 @@ func specRel(opts []layers.TCPOption, a int, o int, isn uint32) uint32 {
 //@ safety C10 C20
 //@ requires[pre.nonnil]     s != nil && s.parser != nil && packets.SpecParsed(s.parser)
 //@ ensures[C20.hs.nosack]   ret0 != nil && chain(ret0, *NotSupportedError) ==> specIsTCP(s.parser) && s.parser.TCP.SYN && s.parser.TCP.ACK && !exists(a, 0, len(s.parser.TCP.Options), s.parser.TCP.Options[a].OptionType == layers.TCPOptionKindSACKPermitted)
+// only a SYN-ACK on the probed connection decides anything: the capture filter of this phase passes every SYN-ACK that
+// reaches the host, so a reply belonging to another connection to the same target must neither finish the handshake nor
+// produce the "SACK not supported" verdict
+//@ ensures[C01+C11+C20.hs.ours]  s.state != old(s.state) || (ret0 != nil && chain(ret0, *NotSupportedError)) ==> packets.SpecOuterSrc(s.parser) == s.params.Target.Addr() && packets.SpecOuterDst(s.parser) == s.localAddr && uint16(s.parser.TCP.SrcPort) == s.params.Target.Port() && uint16(s.parser.TCP.DstPort) == s.localPort && s.parser.TCP.SYN && s.parser.TCP.ACK
 //@ ensures[C20.hs.state]    ret0 != nil ==> s.state == old(s.state)
 //@ ensures[C20.hs.ok]       s.state != old(s.state) ==> ret0 == nil && s.state != nil
 //@ modifies s.state
@@ -224,7 +228,7 @@ func specRel(opts []layers.TCPOption, a int, o int, isn uint32) uint32 {
 //@ modifies *, ghost isOpen, ghost closeN, ghost clock, ghost sendN, ghost sendLog, ghost sendClock, ghost tcpDialed, ghost ioFail
 
 //@ func (*sackDriver).SendProbe
-//@ safety C06 C05 C14 C11
+//@ safety C06 C05 C14 C11 C19
 //@ requires[pre.nonnil]   s != nil && s.sink != nil
 //@ requires[C10.send.open]  selb(isOpen, ref(s.sink))
 //@ requires[pre.len]      s.state != nil ==> len(s.sendTimes) == int(s.params.ParallelParams.MaxTTL)+1
